@@ -18,6 +18,11 @@ def mech(tier, seed):
     return [dict(module="MC_SizeMech", cfg="MC_SizeMech", workers=2, actions=[], coverage=False)]
 
 
+def conformance(tier, seed):
+    # spec -> implementation: the rows of the binary against what the Mech model reads out of the characters of each literal
+    return [dict(name="SizeMech", module="MC_SizeMech", cfg="MC_SizeMech_gen", judge="Judge_SizeMech", workers=2, shared_world=True, limit=1500 if tier == "quick" else None)]
+
+
 def generators(tier, seed):
     return [dict(module="MC_C14", cfg="MC_C14_q" if tier == "quick" else "MC_C14_t", workers=4)]
 
